@@ -118,7 +118,7 @@ def disc_pattern(kind, n, signed, bits):
             return [None if i % 2 else str(10 * i + 2) for i in range(n)]
         return [str(-5 + 2 * i) if i % 2 == 0 else None for i in range(n)]
     if kind == 'expression':
-        return ['10 - 2', None, '(2 * 8) + 3', None, '7 * 7', None, '100 / 3', None][:n] if n <= 8 else None
+        return ['10 - 2', None, '(2 * 8) + 3', None, '7 * 7', None, '90 - 57', None][:n] if n <= 8 else None
     if kind == 'gapped':
         out = []
         for i in range(n):
